@@ -1324,7 +1324,8 @@ class Bpsec(AbstractApplication):
 
         # by type code, the block data may not be decodable
         bcb_type = BlockConfidentialityBlock._overload_fields[CanonicalBlock]['type_code']
-        confidential_blocks = ctr.block_type(bcb_type)
+        # accepting a block removes it from the container's list
+        confidential_blocks = tuple(ctr.block_type(bcb_type))
         for bcb in confidential_blocks:
             if not isinstance(bcb.payload, BlockConfidentialityBlock):
                 LOGGER.warning('Undecodable BCB in block num %s', bcb.block_num)
@@ -1368,7 +1369,8 @@ class Bpsec(AbstractApplication):
 
         # by type code, the block data may not be decodable
         bib_type = BlockIntegrityBlock._overload_fields[CanonicalBlock]['type_code']
-        integ_blocks = ctr.block_type(bib_type)
+        # accepting a block removes it from the container's list
+        integ_blocks = tuple(ctr.block_type(bib_type))
         for bib in integ_blocks:
             if not isinstance(bib.payload, BlockIntegrityBlock):
                 LOGGER.warning('Undecodable BIB in block num %s', bib.block_num)
